@@ -40,7 +40,56 @@ func init() {
 	})
 }
 
-var c04Names = [][]string{{"alpha", "ALPHA", "Alpha"}, {"beta", "BETA", "bEtA"}, {"gamma", "GAMMA", "Gamma"}, {"332", "332", "332"}}
+var c04DefaultNames = [][]string{{"alpha", "ALPHA", "Alpha"}, {"beta", "BETA", "bEtA"}, {"gamma", "GAMMA", "Gamma"}, {"332", "332", "332"}}
+
+// c04Names holds the 4 event names x 3 letter-case variants of the history being run (set at the start of each case,
+// before any of its goroutines exist).
+var c04Names = c04DefaultNames
+
+// c04Reserved are verbs the library (or the harness) reacts to by itself.
+var c04Reserved = map[string]bool{"PING": true, "PONG": true, "NICK": true, "CAP": true, "AUTHENTICATE": true, "CTCP": true, "CTCPREPLY": true,
+	"PRIVMSG": true, "NOTICE": true, "JOIN": true, "PART": true, "KICK": true, "QUIT": true, "MODE": true, "TOPIC": true, "ERROR": true,
+	"VMARK": true, "GO": true, "ACTION": true, "VERSION": true, "USER": true, "PASS": true, "WHO": true, "WHOIS": true, "INVITE": true,
+	"OPER": true, "AWAY": true, "REGISTER": true, "CONNECTED": true, "DISCONNECTED": true}
+
+// c04PickNames: every third history uses the fixed names; the others draw three alphabetic names (one of them
+// containing the letter that rotates through the alphabet with the case index, so that all 26 letters - and the
+// boundaries of any case-folding range - are covered) and one numeric without built-in meaning.
+func c04PickNames(r interface{ Intn(int) int }, idx int) [][]string {
+	if idx%3 == 0 {
+		return c04DefaultNames
+	}
+	var out [][]string
+	seen := map[string]bool{}
+	for len(out) < 3 {
+		n := 2 + r.Intn(8)
+		b := make([]byte, n)
+		for i := range b {
+			b[i] = byte('a' + r.Intn(26))
+		}
+		if len(out) == 0 {
+			b[r.Intn(n)] = byte('a' + idx%26)
+		}
+		lo := string(b)
+		up := strings.ToUpper(lo)
+		if c04Reserved[up] || seen[up] {
+			continue
+		}
+		seen[up] = true
+		mixed := []byte(lo)
+		for i := range mixed {
+			if r.Intn(2) == 0 {
+				mixed[i] -= 'a' - 'A'
+			}
+		}
+		out = append(out, []string{lo, up, string(mixed)})
+	}
+	num := fmt.Sprintf("%03d", 600+r.Intn(290))
+	if num == "671" { // has a built-in (state tracking) handler
+		num = "670"
+	}
+	return append(out, []string{num, num, num})
+}
 
 type c04Action struct {
 	kind    string // "self" | "sibling" | "add"
@@ -122,6 +171,7 @@ func runC04Seq(c *Ctx) {
 			continue
 		}
 		r := rig.Rand(c.Seed, "C04", "seq", procs, salt, idx)
+		c04Names = c04PickNames(rig.Rand(c.Seed, "C04names", idx), idx)
 		nOps := c.Pick(60, 120)
 		c.J.Log("CASE %s ops=%d", Case("seq", idx), nOps)
 		s := NewSession(SessionOpts{Flood: true})
@@ -388,6 +438,7 @@ func runC04Conc(c *Ctx) {
 			continue
 		}
 		c.J.Log("CASE %s", Case("conc", idx))
+		c04Names = c04PickNames(rig.Rand(c.Seed, "C04names", "conc", idx), idx+1)
 		clock := rig.NewLog()
 		s := NewSession(SessionOpts{Flood: true, Log: clock})
 		var mu sync.Mutex
